@@ -262,8 +262,11 @@ def run(ck):
                 if kd and rng.chance(2, 3): s2 = rng.choice(['dna', 'rna', 'internal'] if kd == 'dna' else ['protein', 'divergent'])
                 else: s2 = rng.choice(['dna', 'rna', 'internal', 'protein', 'divergent', 'pfasum', 'DNA', 'xdnax', ''])
                 args += ['--type', s2]; m['ty'] = s2
+            if k < 9 and okfiles:      # every output format against an output path that cannot be opened, and against a directory
+                args = ['-f', ['fasta', 'msf', 'clu'][k % 3]]; m.update({'v': 0, 'w': 0, 'h': 0, 'nt': 4, 'fmt': ['fasta', 'msf', 'clu'][k % 3], 'ty': None, 'pens': [None, None, None]})
+                ifile, positional = (okfiles[k % len(okfiles)], okfiles[k % len(okfiles)]), []
             outp = os.path.join(tmp, 'cli%d.out' % k)
-            if rng.chance(1, 8):
+            if rng.chance(1, 8) or (k < 9 and okfiles):
                 outp = os.path.join(tmp, 'no_such_dir_%d' % k, 'out'); m['wok'] = 0
             tail = [x[0] for x in positional]
             if ifile:
